@@ -57,7 +57,8 @@ def beads_file(rng, inst, path, npop=4, per=140, floatdata=False, voltage=None, 
     return spec
 
 
-def sample_file(rng, inst, path, n=None, floatdata=False, voltage=None, amp_log=True, with_time=True, time_info='full'):
+def sample_file(rng, inst, path, n=None, floatdata=False, voltage=None, amp_log=True, with_time=True, time_info='full',
+                fl_overrides=None):
     R = 1024
     n = n or int(rng.integers(450, 900))
     fsc, ssc = blob(rng, n, R)
@@ -105,6 +106,11 @@ def sample_file(rng, inst, path, n=None, floatdata=False, voltage=None, amp_log=
         pne = ['4,1', '4,1'] + [('4,1' if amp_log else '0,0')] * len(inst['fl']) + (['0,0'] if with_time else [])
         spec = dict(version='FCS3.0', datatype='I', widths=[16] * D, events=ev, ranges=[R] * D, names=names, pne=pne,
                     pnv=voltage or [str(400 + 10 * j) for j in range(D)], png=[None] * D, extra=extra)
+    for j, ov in (fl_overrides or {}).items():
+        # settings of single fluorescence channels (0 = first fluorescence channel): {'pnv': '999', 'pne': '0,0'}
+        for k, v in ov.items():
+            spec[k] = list(spec[k])
+            spec[k][2 + j] = v
     raw, _ = fcsgen.build(spec)
     with open(path, 'wb') as f:
         f.write(raw)
